@@ -4,7 +4,7 @@
     Theorem statements only; every proof lives in Proofs/AdmFactsA.v. *)
 From Coq Require Import List Bool NArith ZArith String.
 From PSA Require Import Base.Str Model.Api Model.Pod Model.Checks Model.Registry Model.Admission
-     Model.Namespace Spec.P05 Spec.PAdm Proofs.AdmFactsA.
+     Model.Namespace Spec.P05 Spec.PAdm Proofs.AdmFactsA Proofs.AdmFactsE.
 Import ListNotations.
 
 (** audit and warn never block; reported exactly when violated *)
@@ -83,3 +83,20 @@ Example C08_reported :
   /\ rs_allowed (fst o) = true /\ List.length (rs_warnings (fst o)) = 1
   /\ is_some (ann "audit-violations" (fst o)) = true.
 Proof. vm_compute. repeat split. Qed.
+
+(** the relation as evaluated on the implementation's observations ([P08_obs]:
+    the texts are only required to name their own level:version) is implied by
+    the exact-text relation proved of the model: a rendered level:version
+    contains neither a quote nor a backslash, so %q leaves it unchanged *)
+Theorem C08_obs_from_exact : forall c ev r w o, P08 c ev r w o = true -> P08_obs c ev r w o = true.
+Proof. exact P08_obs_from_exact. Qed.
+Print Assumptions C08_obs_from_exact.
+
+Theorem C08_audit_warn_obs : forall c ev r w, P08_obs c ev r w (validate c ev r w) = true.
+Proof. exact P08_obs_model. Qed.
+Print Assumptions C08_audit_warn_obs.
+
+(** whatever the version, quoting a level:version only wraps it in quotes *)
+Theorem C08_quote_lv_string : forall x, go_quote (lv_string x) = ("""" ++ lv_string x ++ """")%string.
+Proof. exact go_quote_lv_string. Qed.
+Print Assumptions C08_quote_lv_string.
